@@ -79,6 +79,8 @@ def leg_b(cfgs, schedules, seed, findings, counters):
             continue
         for m in sorted({s["m"] for s in schedules}):
             rows = np.asarray([[rnd.randrange(cfg.grid) for _ in range(cfg.dims)] for _ in range(m)], dtype=float)
+            if m >= 2 and cfg.metric in ("seuclidean", "mahalanobis"):
+                rows[-1] = [20.0 * cfg.grid * (-1) ** j for j in range(cfg.dims)]     # an outlier among the query rows
             seeds = copy.deepcopy(mab._rng).randint(INT32_MAX, size=m)
             for is_predict in (False, True):
                 base_imp = copy.deepcopy(imp)
@@ -133,6 +135,48 @@ def fit_orders(cfgs, seed, findings, counters):
                 findings.append(_finding(cfg, "fitorder.differs", "per-arm fit tasks in order %s give a different model: %s"
                                          % (list(order), "; ".join(diff(ref, snap))), {"order": list(order)}))
                 break
+
+
+def fit_orders_cf(seed, findings, counters):
+    """The same for the context-free and linear policies: _parallel_fit hands one _fit_arm task per arm to the workers, in
+    any completion order (Inv_C05_FitOrder); everything that depends on several arms belongs after the tasks."""
+    from harness.cf import CFBinding
+    from mabwiser.mab import MAB, LearningPolicy as LP
+    rnd = random.Random(seed + 5)
+    arms = [10, 20, 5]
+    d = np.asarray([10, 20, 5] + [rnd.choice(arms) for _ in range(7)])
+    r = np.asarray([float(rnd.choice([0, 1, 2, 3])) for _ in d])
+    c = np.asarray([[float(rnd.randrange(3)), float(rnd.randrange(3))] for _ in d])
+    cases = [(lp, CFBinding(lp).policy(), False) for lp in ("eg", "ucb1", "softmax", "pop", "ts")]
+    cases += [("lin-ucb", LP.LinUCB(1.0, 0.5), True), ("lin-ts", LP.LinTS(0.5, 1.0), True)]
+    for lp, policy, contextual in cases:
+        rewards = (r > 1).astype(float) if lp == "ts" else r
+        args = (d, rewards, c) if contextual else (d, rewards)
+        for fitted in (False, True):
+            mab = MAB(list(arms), policy, seed=3)
+            if fitted:
+                mab.fit(*[a[:4] for a in args])
+            ref = None
+            for order in itertools.permutations(arms):
+                work = copy.deepcopy(mab._imp)
+
+                def tasks(decisions, rewards_, contexts=None, work=work, order=order):
+                    for arm in order:                      # the workers complete the per-arm tasks in this order
+                        work._fit_arm(arm, decisions, rewards_, contexts)
+                work._parallel_fit = tasks
+                (work.partial_fit if fitted else work.fit)(*args)
+                del work._parallel_fit
+                snap = snapshot(work, rng=False)
+                counters["fit_orders"] = counters.get("fit_orders", 0) + 1
+                if ref is None:
+                    ref = snap
+                elif snap != ref:
+                    findings.append({"clause": "fitorder.differs", "op": "fit", "engine": "par", "path": [],
+                                     "label": {"order": list(order), "tags": []}, "binding": {"lp": lp, "np": None},
+                                     "detail": "%s (%s): per-arm fit tasks completed in order %s give a different model than in "
+                                               "order %s: %s" % (lp, "fitted" if fitted else "fresh", list(order), arms,
+                                                                 "; ".join(diff(ref, snap)))})
+                    break
 
 
 def _finding(cfg, clause, detail, where):
